@@ -63,6 +63,8 @@ class Adapter(EnvAdapter):
                    policies=["deliver", "carrier"], probe_every=40, probe_cap=30),
                 _c("r2c3h8a4_s2q8_t7", 2, 3, 8, 4, 2, 8, 7, episodes=3, max_steps=10, policies=["meet", "carrier", "random"],
                    probe_cap=26),
+                _c("r1c3h2a2_s3q3_t40", 1, 3, 2, 2, 3, 3, 40, episodes=3, max_steps=44, policies=polm, probe_every=3),   # 7 x 7 field
+                _c("r1c3h2a2_s0q2_t7", 1, 3, 2, 2, 0, 2, 7, episodes=3, max_steps=10, policies=polm),             # own cell only
             ]
         out = []
         for t in (1, 2, 3, 7):
@@ -85,6 +87,11 @@ class Adapter(EnvAdapter):
                policies=["deliver", "carrier", "deliver2"], probe_every=10, probe_cap=40),
             _c("r2c3h8a4_s2q8_t120", 2, 3, 8, 4, 2, 8, 120, episodes=10, max_steps=124, policies=polm, probe_every=5,
                probe_cap=40),
+            # sensor ranges 0 (the agent sees only its own cell) and 3 (a 7 x 7 field, larger than the small floor), 3 shelf rows
+            _c("r1c3h2a2_s0q2_t40", 1, 3, 2, 2, 0, 2, 40, episodes=6, max_steps=44, policies=polm, probe_every=2),
+            _c("r1c3h2a2_s3q3_t40", 1, 3, 2, 2, 3, 3, 40, episodes=6, max_steps=44, policies=polm, probe_every=2),
+            _c("r3c3h2a3_s3q6_t60", 3, 3, 2, 3, 3, 6, 60, episodes=5, max_steps=64, policies=polm, probe_every=3, probe_cap=40),
+            _c("r2c3h3a5_s1q6_t40", 2, 3, 3, 5, 1, 6, 40, episodes=5, max_steps=44, policies=polm, probe_every=3, probe_cap=40),
         ]
         return out
 
